@@ -4,6 +4,6 @@ go 1.23
 
 require github.com/tyler-sommer/stick v0.0.0
 
-require github.com/shopspring/decimal v1.3.1 // indirect
+require github.com/shopspring/decimal v1.3.1
 
 replace github.com/tyler-sommer/stick => /repo
